@@ -297,6 +297,10 @@ def _var_signs(flat, side):
             cur.add("nonneg")
         if rel in ("<=", "<", "=="):
             cur.add("nonpos")
+        if rel == ">":
+            cur.add("pos")
+        if rel == "<":
+            cur.add("neg")
     return sg
 
 
@@ -342,6 +346,16 @@ def relaxation_unsat(constraints, timeout_ms=3000):
             if len(set(key)) == 1 and len(key) == 2:
                 s.add(z3.Implies(v <= 0, z3.Real(key[0]) == 0))
             continue
+        if len(key) == 2 and key[0] != key[1]:
+            # a strictly signed factor transfers the other factor's sign to the product (and its zero-ness)
+            for a, b in ((key[0], key[1]), (key[1], key[0])):
+                fa = sg.get(a) or ()
+                if "pos" in fa or "neg" in fa:
+                    o = z3.Real(b)
+                    sgn = 1 if "pos" in fa else -1
+                    s.add(z3.Implies(v >= 0, o >= 0) if sgn > 0 else z3.Implies(v >= 0, o <= 0))
+                    s.add(z3.Implies(v <= 0, o <= 0) if sgn > 0 else z3.Implies(v <= 0, o >= 0))
+                    break
         sign = 1
         known = True
         for f in key:
